@@ -240,8 +240,6 @@ func modelRun(drv *model.Driver, chunks [][]byte) string {
 		return "O " + f[1] + " " + canonMsgs(f[2:])
 	case "X":
 		return "X " + modelErrText(f[1]) + " " + canonMsgs(f[2:])
-	case "A": // return nil, errInvalidHTTP: the messages of that call are dropped
-		return "X invalid HTTP request " + canonMsgs(f[1:])
 	}
 	return out
 }
